@@ -3,7 +3,7 @@
    roundtrip_ok / same_uid / validate_agrees / canonical_idempotent are defined in Spec.v. *)
 From Coq Require Import List NArith Bool.
 From Verif.Common Require Import Labels.
-From Verif.C06 Require Import Model Spec TokProofs ParseProofs ImageProofs ValidateProofs Proofs.
+From Verif.C06 Require Import Model Spec TokProofs ParseProofs ImageProofs ValidateProofs FuelProofs PinnedProofs Proofs.
 Import ListNotations.
 Open Scope N_scope.
 
@@ -31,6 +31,13 @@ Theorem c06_print_parse_pinned_partial : forall s a, parse s = Ok a -> nn_free a
              /\ (forall L : labels, eval a' L = eval a L).
 Proof. exact print_parse_pinned_partial. Qed.
 Print Assumptions c06_print_parse_pinned_partial.
+
+(* What DOES hold for the pinned printer on every accepted input, !(!x) included: the canonical text is
+   accepted again and means the same on all label maps.  (So the finding is confined to text/UID stability.) *)
+Theorem c06_pinned_meaning_preserved : forall s a, parse s = Ok a ->
+  exists a', parse (to_string false a) = Ok a' /\ forall L : labels, eval a' L = eval a L.
+Proof. exact pinned_meaning_preserved. Qed.
+Print Assumptions c06_pinned_meaning_preserved.
 
 (* Same identity hash, whatever the hash function is. *)
 Theorem c06_same_uid : forall (H : bytes -> bytes) s, same_uid parse (to_string true) (uid H true) s.
@@ -62,6 +69,11 @@ Print Assumptions c06_canonical_idempotent_refuted.
 Theorem c06_parse_image_wf : forall s a, parse s = Ok a -> wfb true a = true.
 Proof. exact parse_wf. Qed.
 Print Assumptions c06_parse_image_wf.
+
+(* The fuel of the model's recursions never runs out: the three-valued results are really two-valued. *)
+Theorem c06_no_out_of_fuel : forall s, tokenize s <> OutOfFuel /\ parse s <> OutOfFuel /\ validate s <> OutOfFuel.
+Proof. exact no_out_of_fuel. Qed.
+Print Assumptions c06_no_out_of_fuel.
 
 (* The specification oracle accepts every run of the (repaired) model. *)
 Theorem c06_model_meets_spec : forall (H : bytes -> bytes) s maps, ok_case (model_case H true s maps) = true.
